@@ -22,6 +22,13 @@ ATTRS = "append upper items format join x y value name keys get pop strip split 
 BINOPS = ["+", "-", "*", "/", "//", "%", "**", "@", "<<", ">>", "&", "|", "^"]
 CMPOPS = ["<", ">", "==", "!=", "<=", ">=", "in", "not in", "is", "is not"]
 UNDEF = ["undef0", "undef1", "nope"]
+KNOWN_LITS = ["0", "1", "(-1)", "(2)", "1.5", "'a'", "''", "b'x'", "None", "True", "()", "(1, 2)", "(3, 'a')", "(3, None)", "[]", "[1]", "{}", "{'a': 1}", "{1, 2}",
+              "set()", "frozenset()", "...", "sys.version_info", "sys.version_info", "sys.platform", "sys.maxsize", "os.sep", "len", "int", "(3, 8)", "'3'"]
+BIG_ALIASES = ["Literal[0, 1, 2, 3, 4, 5, 6, 7, 8, 9]", "Literal['a', 'b', 'c', 'd', 'e', 'f', 'g', 'h', 'i', 'j', 'k']",
+               "Union[Literal[0, 1, 2, 3, 4, 5, 6, 7, 8, 9, 10], None]", "Optional[Literal[0, 1, 2, 3, 4, 5, 6, 7, 8, 9]]",
+               "Union[Literal[0, 1, 2, 3, 4, 5, 6, 7, 8], str, bytes]", "Literal[0, 1, 2, 3, 4, 5, 6, 7, 8]",
+               "Union[int, str, bytes, float, None, list, dict, set, tuple, frozenset, complex]",
+               "Literal[0, 'a', None, True, b'x', 1, 2, 3, 4, 5, 6, 7]", "Union[Literal[(), 1, 2, 3, 4, 5, 6, 7, 8, 9], List[int]]" if False else "Union[Literal[1, 2, 3, 4, 5, 6, 7, 8, 9, 10], List[int]]"]
 
 
 class Scope:
@@ -56,6 +63,8 @@ class ProgGen:
         self.consts = []
         self.tvars = []
         self.newtypes = []
+        self.bigs = []        # aliases of unions with about ten members (MultiValuedValue's hash-set fast path starts at 10)
+        self.bigfuncs = []
         self.counter = 0
 
     # ------------------------------------------------------------ helpers
@@ -85,7 +94,7 @@ class ProgGen:
     def ann_safe(self, d=2, top=True):
         """An annotation expression that evaluates without error at run time."""
         r = self.r.random()
-        atoms = ["int", "str", "float", "bytes", "bool", "None", "object", "Any", "list", "dict", "tuple", "type"] + self.classes[:3] + self.tvars[:2] + self.newtypes[:1]
+        atoms = ["int", "str", "float", "bytes", "bool", "None", "object", "Any", "list", "dict", "tuple", "type"] + self.classes[:3] + self.tvars[:2] + self.newtypes[:1] + self.bigs * 3
         if d <= 0 or r < 0.3:
             return self.ch(atoms)
         k = self.ch(["List", "Dict", "Optional", "Union", "Tuple", "TupleVar", "Callable", "Literal", "Annotated", "Final", "ClassVar",
@@ -208,6 +217,28 @@ class ProgGen:
             return self.ch(["[]", "{}", "()", "set()"])
         return self.fstring(sc, 0)
 
+    def known_op(self):
+        """Operators applied to statically known operands (literals, module constants, sys.version_info / sys.platform):
+        pyanalyze evaluates many of these itself, so an operator that raises must be caught by it."""
+        self.f("known_value_op")
+        a, b = self.ch(KNOWN_LITS + self.consts[:2]), self.ch(KNOWN_LITS + self.consts[:2])
+        k = self.ch(["cmp", "cmp", "cmp", "in", "bin", "un", "sub", "slice", "chain", "call"])
+        if k == "cmp":
+            return "(%s %s %s)" % (a, self.ch(["<", "<=", ">", ">=", "==", "!="]), b)
+        if k == "chain":
+            return "(%s %s %s %s %s)" % (a, self.ch(["<", ">="]), b, self.ch(["<", "=="]), self.ch(KNOWN_LITS))
+        if k == "in":
+            return "(%s %s %s)" % (a, self.ch(["in", "not in"]), b)
+        if k == "bin":
+            return "(%s %s %s)" % (a, self.ch(BINOPS), b if "**" not in b else "2")
+        if k == "un":
+            return "(%s%s)" % (self.ch(["-", "+", "~", "not "]), a)
+        if k == "sub":
+            return "%s[%s]" % (a, b)
+        if k == "slice":
+            return "%s[%s:%s]" % (a, b, self.ch(["", b]))
+        return "%s(%s)" % (self.ch(["len", "int", "hash", "abs", "sorted", "bool", "str", "divmod", "isinstance", "max"]), ", ".join([a, b][: self.r.randint(1, 2)]))
+
     def fstring(self, sc, d):
         self.f("fstring")
         parts = []
@@ -287,12 +318,20 @@ class ProgGen:
     def expr(self, sc, d=2):
         if d <= 0:
             return self.atom(sc)
-        k = self.ch(["atom", "atom", "binop", "binop", "unary", "bool", "cmp", "call", "call", "call", "attr", "attr", "sub", "slice",
+        k = self.ch(["atom", "atom", "binop", "binop", "unary", "bool", "cmp", "call", "call", "call", "attr", "attr", "sub", "slice", "known_op", "known_op", "bigcall",
                      "list", "tuple", "set", "dict", "lcomp", "scomp", "dcomp", "gen", "lambda", "ifexp", "walrus", "await",
                      "yield", "percent", "format", "fstring", "method"])
         e = lambda: self.expr(sc, d - 1)
         if k == "atom":
             return self.atom(sc)
+        if k == "known_op":
+            return self.known_op()
+        if k == "bigcall":
+            if self.bigs:
+                self.f("big_union_call")
+                f_ = self.ch(list(self.bigfuncs) or ["undef0"])
+                return "%s(%s)" % (f_, self.ch(KNOWN_LITS))
+            return self.known_op()
         if k == "binop":
             return "(%s %s %s)" % (e(), self.ch(BINOPS), e())
         if k == "unary":
@@ -822,9 +861,20 @@ class ProgGen:
         self.consts.append(n)
         return out
 
-    def toplevel_typing(self):
-        k = self.ch(["tvar", "tvar", "newtype", "alias", "tvar_bound", "paramspec"])
+    def toplevel_typing(self, force=None):
+        k = force or self.ch(["tvar", "tvar", "newtype", "alias", "tvar_bound", "paramspec", "bigunion", "bigunion"])
         self.f("typing_" + k)
+        if k == "bigunion":
+            n, fn = self.fresh("Big"), self.fresh("bf")
+            self.bigs.append(n)
+            self.bigfuncs.append(fn)
+            self.funcs[fn] = (1, ["d"])
+            lit = self.ch(KNOWN_LITS)
+            return ["%s = %s" % (n, self.ch(BIG_ALIASES)),
+                    "def %s(d: %s, e: %s = None) -> %s:" % (fn, n, self.ch([n, "'%s'" % n, "Optional[%s]" % n]), self.ch([n, "None", "List[%s]" % n])),
+                    "    t: %s = %s" % (n, lit), "    u: %s = [%s]" % (self.ch(["List[%s]" % n, "Dict[str, %s]" % n, n]), self.ch(KNOWN_LITS)),
+                    "    %s(%s)" % (fn, self.ch(KNOWN_LITS)), "    %s(d=%s, e=%s)" % (fn, self.ch(KNOWN_LITS), self.ch(KNOWN_LITS)),
+                    "    return %s" % self.ch(KNOWN_LITS + ["d", "t"])]
         if k in ("tvar", "tvar_bound"):
             n = self.fresh("T")
             self.tvars.append(n)
@@ -902,6 +952,8 @@ class ProgGen:
         out.append(HEADER.rstrip("\n"))
         out += ["def _deco(f):", "    return f", "def _deco_args(*a, **k):", "    return lambda f: f"]
         n_items = self.r.randint(3, 9)
+        if self.p(0.3):
+            out += self.toplevel_typing(force="bigunion")
         for _ in range(n_items):
             r = self.r.random()
             if r < 0.12:
